@@ -646,7 +646,7 @@ func TestC04(t *testing.T) {
 		"the seed documents (19 repository mocks, one every-field-set document per type) and of the gob encodings of every-field-set values, at the matching entry points; nesting: arrays/objects/lists/language maps/" +
 		"collections nested 1..200000 deep, chains (every type name x every item-valued term nested 28 deep, ~1800 documents), type pairs (a list of two members for every ordered pair of type names, three document forms) and gob values nested up to 18 deep, in a child process (a stack overflow is fatal) with an allocation bound; structure-aware random: seeds with a random node replaced by " +
 		"another kind, duplicated members, huge numbers, invalid UTF-8, byte flips and rewritten length bytes in gob streams; corpus: saved fuzz inputs; thorough adds a native coverage-guided fuzz campaign. " +
-		"value-forms (child process, run first): every entry point x every valid seed and hostile document (and what those decode to, stored with gob); the follow-up battery on what was returned, and on what a per-type decoder filled by value as well. Oracle: no panic, returns within a 10 s watchdog, allocation <= 64 MiB + 4 KiB per input byte (measured layers), and the follow-up battery (IsNil, NotEmpty, predicates, ItemsEqual(v,v), both encoders, fmt, " +
+		"mistyped: every member name the readers look for (id, type, @context and every vocabulary term) x 20 JSON values of every kind x 8 kinds of document x {top level, item position, list position}; value-forms (child process, run first): every entry point x every valid seed and hostile document (and what those decode to, stored with gob); the follow-up battery on what was returned, and on what a per-type decoder filled by value as well. Oracle: no panic, returns within a 10 s watchdog, allocation <= 64 MiB + 4 KiB per input byte (measured layers), and the follow-up battery (IsNil, NotEmpty, predicates, ItemsEqual(v,v), both encoders, fmt, " +
 		"DerefItem) on every value returned without error. non-trivial = the input is accepted by the underlying parser (JSON parses / gob decodes) and reaches a loader; distinct by entry point + input bytes")
 	r.Assume("asymptotic cost is not decided (only a coarse absolute allocation bound and a watchdog with several orders of magnitude of margin)")
 
@@ -816,6 +816,56 @@ func TestC04(t *testing.T) {
 		}
 		r.Cells(len(c04Terms)*len(shapes)*len(bases), n)
 		r.Exhaustive("near-dups", !r.Replaying())
+	}
+
+	// every member name the readers look for (id, type and @context included) holding every kind of JSON value, the expected kinds and
+	// the others: at top level, in an item position and in a list position, for seven kinds of document
+	if r.WantLayer("mistyped", true) {
+		shapes := []string{`"https://example.com/v"`, `""`, `{"type":"Link","href":"https://example.com/l"}`, `{"id":"https://example.com/o","type":"Note"}`, `{"name":"anonymous"}`,
+			`["https://example.com/1","https://example.com/2"]`, `[]`, `[[]]`, `[null]`, `[""]`, `["Note","Article"]`, `{}`, `null`, `7`, `-1.5e300`, `true`, `{"en":"text"}`, `"plain text"`, `"2021-03-04T05:06:07Z"`, `"PT5S"`}
+		bases := []string{`"id":"https://example.com/x","type":"Page"`, `"type":"Image","name":"pic"`, `"id":"https://example.com/p","type":"Person"`, `"id":"https://example.com/c","type":"Create"`,
+			`"id":"https://example.com/q","type":"Question"`, `"id":"https://example.com/oc","type":"OrderedCollectionPage"`, `"id":"https://example.com/pl","type":"Place"`, `"type":"Mention","href":"https://example.com/m"`}
+		terms := append([]string{"id", "type", "@context"}, c04Terms...)
+		n, total := 0, 0
+		for ti, term := range terms {
+			for si, sh := range shapes {
+				for bi, base := range bases {
+					// the member under test comes first, so that it is the one a lookup by name finds
+					inner := `{"` + term + `":` + sh + `,` + base + `}`
+					if term == "id" || term == "type" {
+						// ... and replaces the base's own member of that name
+						b2 := strings.Replace(base, `"id":"https://example.com/`, `"x-id":"https://example.com/`, 1)
+						if term == "type" {
+							b2 = strings.Replace(base, `"type":`, `"x-type":`, 1)
+						}
+						inner = `{"` + term + `":` + sh + `,` + b2 + `}`
+					}
+					docs := []string{
+						inner,
+						`{"type":"Create","id":"https://example.com/outer","object":` + inner + `}`,
+						`{"type":"Note","id":"https://example.com/outer","tag":["https://example.com/first",` + inner + `]}`,
+					}
+					for di, d := range docs {
+						total++
+						e := entryByName["UnmarshalJSON"]
+						if di == 0 && (ti+si+bi)%3 == 0 {
+							if x := entryByName[[]string{"(*Object).UnmarshalJSON", "(*Actor).UnmarshalJSON", "(*Activity).UnmarshalJSON", "(*Link).UnmarshalJSON", "(*Question).UnmarshalJSON", "(*Place).UnmarshalJSON"}[(ti+si+bi)%6]]; x.name != "" {
+								e = x
+							}
+						}
+						cell := fmt.Sprintf("%s mistyped %s shape#%d base#%d pos#%d", e.name, term, si, bi, di)
+						if !r.WantCell(cell) {
+							continue
+						}
+						n++
+						ds, oc := c04Call(e, []byte(d), false)
+						record("mistyped", cell, e, []byte(d), ds, oc, n%4999 == 0)
+					}
+				}
+			}
+		}
+		r.Cells(total, n)
+		r.Exhaustive("mistyped", !r.Replaying())
 	}
 
 	if r.WantLayer("truncation", true) {
